@@ -154,6 +154,22 @@ def run_case(case):
         t = tabs[which]
         SEPS = seps[which]
         kind = op[0]
+        if kind == "setidxfrom":
+            # t[index] = <the index column of another live table>: the very array object that table
+            # returns ("array"), a copy of it, or a list of its values
+            src = tabs[op[1]]
+            val = src[src._index]
+            val = val.copy() if op[2] == "copy" else list(val) if op[2] == "list" else val
+            try:
+                if op[3] == "attr":
+                    setattr(t, t._index, val)
+                else:
+                    t[t._index] = val
+                res.append(["unit"])
+            except Exception as e:  # noqa
+                res.append(canon_exc(e))
+            orc.append(None)
+            continue
         if kind == "setsep":
             # t._sep_count / t._sep_previous / t._sep_next = value
             i = ["count", "previous", "next"].index(op[1])
